@@ -52,7 +52,7 @@ def targeted_cases(build, rng, nid0=10 ** 6, max_targets=8):
         norms = tables[2].get(sg, [])
         if k >= len(norms):
             continue
-        crs = list(targeted_crystals(tables, sg, k, rng, want=3))
+        crs = list(targeted_crystals(tables, sg, k, rng, want=10))
         lets = K.table_letters(tables, sg)
         mult = {l: m for l, m, nf in lets}
         gen = max(mult, key=lambda l: mult[l])
@@ -72,7 +72,7 @@ def targeted_cases(build, rng, nid0=10 ** 6, max_targets=8):
             base = nid
             out.append({"id": nid, "sg": sg, "base": base, "crystal": cr, "pres": {"kind": "targeted", "normalizer": k, "pattern": pat}})
             nid += 1
-            for j, n in enumerate(norms[:12]):
+            for j, n in enumerate(norms[:6]):
                 mv = moved_by(cr, n)
                 if K.stable_group(mv) == sg:
                     out.append({"id": nid, "sg": sg, "base": base, "crystal": mv,
@@ -401,6 +401,8 @@ def patterns_selecting(tables, sg, k, rng, max_atoms=120, limit=4, pin_group=Tru
     if pin_group:
         combos.sort(key=lambda c: 0 if gen in c else 1)
     seen = set()
+    covered = set()
+    spare = []
     for combo in combos[:6000]:
         for _ in range(3):
             zs = rng.sample(K.SPECIES, len(combo))
@@ -413,18 +415,26 @@ def patterns_selecting(tables, sg, k, rng, max_atoms=120, limit=4, pin_group=Tru
                 if key in seen:
                     continue
                 seen.add(key)
-                out.append(list(zip(combo, zs)))
+                pat = list(zip(combo, zs))
+                # prefer patterns that bring in a letter no accepted pattern occupies yet: a wrong entry for
+                # normalizer k may concern any letter of the group
+                if set(combo) - covered:
+                    covered |= set(combo)
+                    out.append(pat)
+                elif len(spare) < limit:
+                    spare.append(pat)
                 break
-        if len(out) >= limit:
+        if len(out) >= limit or covered >= set(names):
             break
+    out += spare[:max(0, limit - len(out))]
     return out
 
 
-def targeted_crystals(tables, sg, k, rng, want=4, max_atoms=120):
+def targeted_crystals(tables, sg, k, rng, want=10, max_atoms=120):
     """crystals of group sg (confirmed by spglib over the tolerance window) whose occupation makes the model's
     normalizer search apply normalizer k -- the inputs on which a wrong table entry for that normalizer shows"""
     got = []
-    for pat in patterns_selecting(tables, sg, k, rng, max_atoms=max_atoms, limit=4 * want):
+    for pat in patterns_selecting(tables, sg, k, rng, max_atoms=max_atoms, limit=2 * want):
         for _ in range(2):
             cr = K.make_crystal(sg, rng, pat, tables)
             if cr is not None and K.stable_group(cr) == sg:
